@@ -95,6 +95,7 @@ def run(ctx):
     nt = sum(r["distinct_nontrivial"] for r in ctx.harness_runs)
     import endpoint_job
     ep = endpoint_job.run_endpoint(ctx)
+    conf_files = __import__("binconf_jobs").run_c04(ctx)
     return ctx.finish("model_checking", {
         "endpoint_composition": ep,
         "states": states, "transitions": trans,
